@@ -2,31 +2,42 @@ package oracle
 
 import (
 	"fmt"
+	"os"
 	"strconv"
 	"strings"
 )
 
 // BashTopBatch is a variant of BashEvalBatch for cases whose Code can make
-// bash "jump to top level" (e.g. an arithmetic error in an array subscript,
-// which unwinds every enclosing eval and function call and discards the whole
-// top-level command). Each case is therefore written as three separate
-// top-level commands:
+// bash "jump to top level" (e.g. an arithmetic error in an array subscript or
+// in $(( )), which unwinds every enclosing eval and function call and discards
+// the whole top-level command). Each case is therefore written as three
+// separate top-level commands:
 //
 //	__rst                       (reset)
-//	eval CODE 2>/dev/null       (may be discarded as a whole by bash)
+//	eval CODE 2>"$__F"          (may be discarded as a whole by bash)
 //	__st=$?; POST; compare R with Want
 //
-// post is shell text run after every case with the status of CODE in __st; it
-// must set R. Want is compared with R as is (no "status:" prefix is added).
+// post is shell text run after every case with the status of CODE in __st and
+// with __e set to "E" when CODE wrote anything to standard error (a
+// diagnostic: this is how an arithmetic error in `(( ))`/`let`, which has the
+// same status 1 as a zero value, is told from a value) and to "-" otherwise;
+// it must set R. Want is compared with R as is (no "status:" prefix is added).
 // Only differing cases are returned. A case that kills the shell makes the
 // END marker go missing, which is reported as an error.
 func BashTopBatch(prelude, reset, post string, cases []EvalCase, dir string) ([]Diff, error) {
+	ef, err := os.CreateTemp("", "vstderr-*")
+	if err != nil {
+		return nil, err
+	}
+	ef.Close()
+	defer os.Remove(ef.Name())
 	var sb strings.Builder
 	sb.WriteString(prelude)
-	sb.WriteString("\n__rst() { " + orColon(reset) + "; }\n")
-	sb.WriteString("__post() { " + orColon(post) + "; }\n")
+	sb.WriteString("\n__F=" + ShQuote(ef.Name()) + "\n")
+	sb.WriteString("__rst() { " + orColon(reset) + "; }\n")
+	sb.WriteString("__post() { if [[ -s $__F ]]; then __e=E; else __e=-; fi; " + orColon(post) + "; }\n")
 	for i, cs := range cases {
-		fmt.Fprintf(&sb, "R=; __rst\neval %s 2>/dev/null\n__st=$?; __post; [[ \"$R\" == %s ]] || printf 'D %%s %%q\\n' %d \"$R\"\n", ShQuote(cs.Code), ShQuote(cs.Want), i)
+		fmt.Fprintf(&sb, "R=; __rst\neval %s 2>\"$__F\"\n__st=$?; __post; [[ \"$R\" == %s ]] || printf 'D %%s %%q\\n' %d \"$R\"\n", ShQuote(cs.Code), ShQuote(cs.Want), i)
 	}
 	sb.WriteString("echo END\n")
 	out, _, err := ShellFile("bash", sb.String(), dir)
